@@ -120,10 +120,16 @@ class MemberSet:
         return self.bits[n]
 
     def __iter__(self):
-        raise sx.EngineUnsupported("iteration over a symbolic set")
+        # forks on every membership bit, like the list the bits stand for
+        for n, b in self.bits.items():
+            if b:
+                yield n
 
     def __len__(self):
-        raise sx.EngineUnsupported("len of a symbolic set")
+        return sum(1 for _ in self)
+
+    def __bool__(self):
+        return len(self) > 0
 
 
 class World:
@@ -131,7 +137,7 @@ class World:
 
 
 def build_world(src, shape, sens=None, exploits=None, privescs=None, step_limit=None,
-                scan_costs=None, host_fw=True, symbolic_values=True, name_tag=""):
+                scan_costs=None, host_fw=True, symbolic_values=True, name_tag="", host_order=None):
     """Build the real Scenario / Host objects of a shape from a source.
 
     sens: list of sensitive addresses (default: last host).  exploits / privescs: dicts of action
@@ -207,6 +213,9 @@ def build_world(src, shape, sens=None, exploits=None, privescs=None, step_limit=
             dval = 0.0
         w.os[a], w.srv[a], w.prc[a], w.val[a], w.dval[a] = osb, srvb, prcb, val, dval
         hosts[a] = Host(a, dict(osb), dict(srvb), dict(prcb), hfw, value=val, discovery_value=dval)
+    if host_order == 'reversed':
+        # the host mapping of a scenario has no prescribed order (YAML mapping)
+        hosts = {a: hosts[a] for a in reversed(list(hosts))}
     w.hosts = hosts
 
     sc = scan_costs or {}
@@ -369,14 +378,19 @@ def make_action(w, kind, target, name=None, os=None, tag="a", req_symbolic=True,
         A.prob = 1.0
         A.grant = None
     A.req = src.int("%s_req" % tag, 0, 2) if req_symbolic else AccessLevel.USER
-    if kind == 'exploit':
-        A.obj = m_act.Exploit("e_x", target, cost=A.cost, service=name, os=os, access=A.grant,
-                              prob=A.prob, req_access=A.req)
-    elif kind == 'privesc':
-        A.obj = m_act.PrivilegeEscalation("pe_x", target, cost=A.cost, access=A.grant, process=name,
-                                          os=os, prob=A.prob, req_access=A.req)
-    else:
-        cls = dict(service_scan=m_act.ServiceScan, os_scan=m_act.OSScan,
-                   subnet_scan=m_act.SubnetScan, process_scan=m_act.ProcessScan)[kind]
-        A.obj = cls(target, cost=A.cost, prob=A.prob, req_access=A.req)
+    try:
+        if kind == 'exploit':
+            A.obj = m_act.Exploit("e_x", target, cost=A.cost, service=name, os=os, access=A.grant,
+                                  prob=A.prob, req_access=A.req)
+        elif kind == 'privesc':
+            A.obj = m_act.PrivilegeEscalation("pe_x", target, cost=A.cost, access=A.grant, process=name,
+                                              os=os, prob=A.prob, req_access=A.req)
+        else:
+            cls = dict(service_scan=m_act.ServiceScan, os_scan=m_act.OSScan,
+                       subnet_scan=m_act.SubnetScan, process_scan=m_act.ProcessScan)[kind]
+            A.obj = cls(target, cost=A.cost, prob=A.prob, req_access=A.req)
+    except AssertionError:
+        # the Action class refuses these field values: no step exists to talk about here; whether
+        # every action of a valid scenario can be constructed is C10's / C11's subject
+        raise sx.Cut("action not constructible")
     return A
